@@ -84,17 +84,20 @@ class ProductDomain(Domain):
             domain_a = Point(space=self.domain_a.space, point=point_data)
         if b_variables_in_data:  # domain_b will be a fixed point
             point_data = self._create_point_data(self.domain_b.space, data)
-            domain_b = Point(space=self.domain_a.space, point=point_data)
+            domain_b = Point(space=self.domain_b.space, point=point_data)
         return ProductDomain(domain_a=domain_a, domain_b=domain_b)
 
     def _create_point_data(self, space, data):
+        # the coordinates of the fixed point, in the order of the variables of the space
         point_data = []
         for vname in space.keys():
             vname_data = data[vname]
-            if isinstance(vname_data, (list, tuple, torch.Tensor)):
-                point_data.extend(data)
+            if isinstance(vname_data, torch.Tensor):
+                point_data.extend(vname_data.flatten().tolist())
+            elif isinstance(vname_data, (list, tuple)):
+                point_data.extend(vname_data)
             else:  # number
-                point_data.append(data)
+                point_data.append(vname_data)
         return point_data
 
     @property
